@@ -248,6 +248,9 @@ class Language(object):
             tokenize(val, "*(,):;~#\n") if isinstance(val, str) else val)
         stack: list[Expr | None] = [None]
 
+        # Anonymous sources that have not been given a type yet
+        untyped: list[Expr] = []
+
         # Give default Source expressions when argument expressions aren't 
         # explicitly given
         args_map: list[Expr] | dict[int, Expr]
@@ -281,7 +284,8 @@ class Language(object):
 
                 # Anonymous sources are immediately treated as the given type
                 # (not just a subtype), as it can't be specified anywhere else
-                if previous_token == "-" and isinstance(previous, Source):
+                if previous in untyped:
+                    untyped.remove(previous)
                     previous.type = t
 
                 try:
@@ -300,6 +304,7 @@ class Language(object):
                 current: Optional[Expr]
                 if token == "-":
                     current = Source()
+                    untyped.append(current)
                 elif token.isdecimal():
                     input = int(token)
                     try:
